@@ -2,6 +2,7 @@ package harness
 
 import (
 	"fmt"
+	"math/big"
 	"sort"
 
 	"github.com/irismod/service/types"
@@ -316,7 +317,7 @@ func (o *c07) Step(r *StepRec) []Violation {
 		}
 		vol := volOf(pre, hx(rc.Consumer), rc.ServiceName, hx(rq.Provider))
 		want := rp.Fee(r.TimeNs, vol)
-		if fee != want {
+		if fee != want && !rp.FeeAcceptable(r.TimeNs, vol, big.NewInt(fee)) {
 			o.fail("c07:fee", "request %s: fee %d, published price is %d (base %d, time discount %s, volume %d discount %s)",
 				short(id), fee, want, rp.Base, rp.DiscountAt(r.TimeNs).RatString(), vol, rp.DiscountFor(vol).RatString())
 		}
@@ -346,6 +347,15 @@ func (o *c07) Step(r *StepRec) []Violation {
 			if vol == v.Volume || vol+1 == v.Volume {
 				o.hit("volume_threshold_edge")
 			}
+		}
+	}
+	// a synchronous module-service call: the consumer's balance moves exactly as the fee recorded on
+	// the request says (nothing in super mode)
+	if r.Action.Kind == KCall && len(NewReqs(r)) > 0 {
+		e := ExpectedEffects(o.w, o.m, r)
+		c := r.Action.Signer
+		if got := post.Bal[c] - pre.Bal[c]; got != e.Delta[c] {
+			o.fail("c07:charge_call", "module-service call: consumer %s balance moved by %d, the fee recorded on the request implies %d", short(c), got, e.Delta[c])
 		}
 	}
 	// super-mode consumers pay nothing: the consumer's debit equals the fees of its new requests
@@ -451,8 +461,8 @@ func (o *c08) Step(r *StepRec) []Violation {
 				why = fmt.Sprintf("status=%s provider=%s signer=%s expiry=%d height=%d", ri.Status, short(ri.Provider), short(a.Signer), ri.ExpH, r.Height)
 			}
 			o.fail("c08:accepted", "response accepted but must be rejected: %s", why)
-		case !r.OK && expect && !r.InTx && r.Panic == "":
-			o.fail("c08:rejected", "response by the designated provider to pending request %s rejected at height %d (expiry %d): %s", short(a.ReqID), r.Height, ri.ExpH, r.Err)
+		case !r.OK && expect && !r.InTx:
+			o.fail("c08:rejected", "response by the designated provider to pending request %s rejected at height %d (expiry %d): %s%s", short(a.ReqID), r.Height, ri.ExpH, r.Err, r.Panic)
 		}
 		if r.OK {
 			o.hit("accepted")
